@@ -46,6 +46,8 @@ CHECKS = {
             "After fix, the nested block sequence, code content, inline structure, link targets and every character of text must be unchanged, up to the documented normalisations.", "3 C08"),
     "C13": ("exhaustive enumeration of histories (all ordered pairs over a 50-document pool, triples over a core) within one process, differential against the file alone; explicit-state BFS over rule-instance state dumps",
             "Per-file output and bytes within any history must equal those of the file processed alone; the reachable set of rule-instance states is explored breadth-first with a canonical dump as state key.", "3 C13"),
+    "C06": ("bounded-exhaustive enumeration of documents (on which the CommonMark comparison passes) x 24 rules x configuration grids; reference predicates from the rule documentation evaluated on the independent parser's tokens",
+            "For every document and grid point the set of (line, rule) pairs reported must match the documented condition: no missed occurrence, no report where the condition is false; abstentions where a page is silent are explicit per predicate.", "3 C06"),
 }
 NOT_YET = {}
 
